@@ -116,6 +116,24 @@ def run(pid):
                 if why and len(o.violations) < 50:
                     o.violations.append({"case": c, "impl": a, "why": why})
         o.extra["lookups_checked_by_oracle"] = nq
+        if pid == "C12" and replay is None:
+            # through the server: what a handler is handed on the SECOND and later requests of a connection is still exactly the
+            # winner's bindings — the fallback (also for an extension method that has no table at all) gets none
+            import check as C
+            lines_, wants = [], []
+            for m2, p2, w2 in ((b"PROPFIND", b"/nothing", "R404:0:e"), (b"GET", b"/nowhere/at/all", "R404:0:e"), (b"MKCOL", b"/p/1/2", "R404:0:e"),
+                               (b"GET", b"/p/7/8", "R200:0:" + hx(b"7,8"))):
+                for a_, b_ in ((b"x", b"y"), (b"abc", b"zz")):
+                    first = b"GET /p/" + a_ + b"/" + b_ + b" HTTP/1.1\r\n\r\n"
+                    second = m2 + b" " + p2 + b" HTTP/1.1\r\n\r\n"
+                    lines_.append("CONN max=4096 script=s:%s,r,s:%s,r,c,e" % (hx(first), hx(second)))
+                    wants.append(["R200:0:" + hx(a_ + b"," + b_), w2, "EOF"])
+            for c, a, w in zip(lines_, C.run_sharded(ctx["kimpl"], lines_, shards=4), wants):
+                o.evaluations += 1
+                pz = a.split()
+                got = pz[1].split(",") if len(pz) >= 2 and pz[0] == "T" else None
+                if got != w and len(o.violations) < 50:
+                    o.violations.append({"case": c, "impl": a[:200], "expected": ",".join(w), "why": "parameters handed to the handler of a later request on the same connection: got %s, expected %s (a fallback that sees parameters answers 'stale-params')" % (",".join(got or [a[:30]])[:80], ",".join(w))})
     return run_
 
 
